@@ -77,7 +77,8 @@ META = {
     'models': ['M1'],
 }
 
-SIGNATURES = {}     # dup-selection-truncates was fixed upstream (dcfe778); runlib.sig_dup_selection still names it in replays
+SIGNATURES = {'calc-wild-dep-dropped': runlib.sig_calc_wild_dropped}
+# dup-selection-truncates was fixed upstream (dcfe778); runlib.sig_dup_selection still names it in replays
 
 # generator knobs of this property: shared deps, groups, shared setup-tasks, repeated selection
 KNOBS = {'p_dup_sel': 0.3, 'p_shared': 0.8, 'p_group': 0.45, 'p_meta_names': 0.2, 'p_share_lists': 0.25, 'p_combo': 0.15, 'p_calc_then_fail': 0.25,
